@@ -789,6 +789,9 @@ impl OptimizedSearch for u8 {
             let cmp = _mm_cmpeq_epi8(search_vec, keys_vec);
             let mask = _mm_movemask_epi8(cmp) as u32;
 
+            // Only lanes below `len` hold keys; the padding lanes are zero and would
+            // otherwise match a search for key 0.
+            let mask = mask & ((1u32 << len.min(8)) - 1);
             if mask != 0 {
                 // Found a match, find the first set bit
                 return Some(mask.trailing_zeros() as usize);
